@@ -31,7 +31,7 @@ def spec_to_cfg(sp):
 def run_one(sp):
     """sp: dict(name, n,d,sc,fc,cont,chunk,calls,..., checker='valid'|'reject'|'fault', witness=int)"""
     t0 = time.time()
-    out = dict(name=sp['name'], paths=0, queries=0, solver_s=0.0, results={}, counts={}, error=None, witnesses=[], cut_paths=0)
+    out = dict(name=sp['name'], paths=0, queries=0, solver_s=0.0, results={}, counts={}, error=None, witnesses=[], cut_paths=0, reach={})
     try:
         cfg = spec_to_cfg(sp)
         stubs = wpath.h5dwrite_snapshot(envstubs.mk_stubs())
@@ -60,7 +60,7 @@ def run_one(sp):
         deadline = time.time() + sp.get('budget_s', 1500)
         out['paths'] = ex.explore(driver, setup2, on_path, deadline=deadline)
         out['queries'] = ex.nq; out['solver_s'] = ex.tq
-        out['results'] = agg.d; out['counts'] = agg.count
+        out['results'] = agg.d; out['counts'] = agg.count; out['reach'] = agg.reach
     except Inconclusive as e:
         out['error'] = 'inconclusive: %s' % e
     except Exception:
@@ -98,8 +98,20 @@ def realise(sp, obligation, budget_s=600):
             pm = v[1] if 'calls' in v[1] else v[1].get('model')
             if pm:
                 cfgd = dict(n=reg['m'], d=1, sc=reg['sc'], fc=reg['fc'], start=pm['start'], cont=sp['cont'], chunk=sp['chunk'])
-                return cfgd, [dict(g=c['g'], b=c['b'], vlen=c['vlen']) for c in pm['calls']]
+                return cfgd, prefix_history(sp, pm) + [dict(g=c['g'], b=c['b'], vlen=c['vlen']) for c in pm['calls']]
     return None
+
+
+def prefix_history(sp, pm):
+    """one concrete call on a fresh channel that leads into the pre-state of an inductive-step counterexample (see wpath.install_open_state)"""
+    pre = pm.get('pre')
+    if not pre: return []
+    st = pm['start']
+    if sp['cont'] and not sp['chunk']:
+        return [dict(g=[pre['gi'] - 1], b=[0], vlen=1)]
+    if pre['ol'] == 0:
+        return [dict(g=[pre['s0'] - st], b=[0], vlen=pre['di'])]
+    return [dict(g=[pre['s0'] - st, pre['sl'] - st], b=[0, pre['ol']], vlen=pre['di'])]
 
 
 REPLAY_BODY = '''
